@@ -249,6 +249,9 @@ impl Engine for ReaderEngine {
     fn stream(&self) -> u64 {
         19
     }
+    fn repeat_signature(&self) -> Option<&'static str> {
+        Some("C19:result-depends-on-earlier-decodes-in-the-process")
+    }
 
     fn generate(&self, rng: &mut Rng, fault_free: bool) -> RScenario {
         // swarm configuration for this run
@@ -736,5 +739,41 @@ pub fn replay_concurrent(rf: &simcore::ReplayFile, path: &std::path::Path) -> i3
             println!("replay of {}: no mismatch in {decodes} concurrent decodes", path.display());
             0
         }
+    }
+}
+
+
+/// `replay` of a "twice" finding: the scenario is executed twice in this (fresh) process; decoding
+/// is a pure function of the bytes, so both executions must leave the same trace.
+pub fn replay_twice(rf: &simcore::ReplayFile, path: &std::path::Path) -> i32 {
+    let sc: RScenario = serde_json::from_value(rf.scenario.clone()).unwrap_or_else(|e| simcore::harness_error(&format!("malformed scenario in {}: {e}", path.display())));
+    let a = ReaderEngine.execute(&sc);
+    let b = ReaderEngine.execute(&sc);
+    println!("trace_hash={:016x}", a.trace_hash);
+    let va = a.violation.as_ref().map(|v| v.signature.clone());
+    let vb = b.violation.as_ref().map(|v| v.signature.clone());
+    if a.trace_hash != b.trace_hash || va != vb {
+        println!("replayed signature={}", rf.signature);
+        println!("  | the same decodes (frames {:?}) executed twice in one fresh process leave different traces:", sc.frames);
+        println!("  | first : trace {:016x}, {}", a.trace_hash, va.unwrap_or_else(|| "every reader result equal to the slice decoder".into()));
+        println!("  | second: trace {:016x}, {}", b.trace_hash, vb.unwrap_or_else(|| "every reader result equal to the slice decoder".into()));
+        if let Some(v) = b.violation.as_ref().or(a.violation.as_ref()) {
+            for l in v.detail.lines().take(12) {
+                println!("  |   {l}");
+            }
+        }
+        println!("  | (a decode left something behind that changes what later decodes return)");
+        if std::env::var("VERIF_REPLAY_QUIET").is_err() {
+            let known = simcore::KnownFindings::load(&simcore::verif_dir());
+            if let Some(k) = known.matches(&rf.property, &rf.signature, "") {
+                println!("KNOWN-FINDING: property={} {}", rf.property, k.what);
+                return 0;
+            }
+        }
+        println!("VIOLATION property={} replay={}", rf.property, path.display());
+        1
+    } else {
+        println!("replay of {}: both executions leave the same trace", path.display());
+        0
     }
 }
